@@ -542,8 +542,8 @@ type TocFile struct {
 
 // TocLine is one TOC entry in order, for the model of the pre-read loop.
 type TocLine struct {
-	Data                                      bool
-	File                                      string
+	Data                                        bool
+	File                                        string
 	ChunkOffset, ChunkSize, Offset, InnerOffset int64
 }
 
